@@ -102,7 +102,7 @@ func depWorld(seed uint64, name string) *spec.World {
 		{Name: "ItemList", Fields: []*spec.Field{{Name: "items", Number: 1, Kind: "message", TypeName: fq("Item"), Card: "repeated", Unwrap: true}}},
 		{Name: "Event", Oneofs: []*spec.Oneof{{Name: "body", HasConfig: true, Discriminator: "kind", Flatten: true}}, Fields: []*spec.Field{
 			{Name: "id", Number: 1, Kind: "string"},
-			{Name: "note_v", Number: 2, Kind: "message", TypeName: fq("Note"), Oneof: "body", OneofValue: sp("note")},
+			{Name: "note_v", Number: 2, Kind: "message", TypeName: fq("Note"), Oneof: "body", OneofValue: sp("text/plain")},
 			{Name: "item_v", Number: 3, Kind: "message", TypeName: fq("Item"), Oneof: "body", OneofValue: sp("item")}}},
 		{Name: "Big", Fields: []*spec.Field{{Name: "n", Number: 1, Kind: "int64", Int64Encoding: "NUMBER"}}},
 	}}
@@ -120,6 +120,14 @@ func depWorld(seed uint64, name string) *spec.World {
 				{Name: "groups", Number: 2, Kind: "message", TypeName: fq("ItemList"), Card: "map", MapKey: "string"}}}
 			f.Messages = append(f.Messages, req, resp)
 			m := &spec.Method{Name: mn, In: fq(req.Name), Out: fq(resp.Name), HasConfig: true, Verb: v, Path: "/" + strings.ToLower(mn)}
+			if file == "audit.proto" && i == 0 {
+				// only this file binds fields to the URL: whatever that requires (imports, helpers)
+				// belongs to its outputs alone
+				req.Fields = append(req.Fields,
+					&spec.Field{Name: "tenant", Number: 4, Kind: "string"},
+					&spec.Field{Name: "page", Number: 5, Kind: "int32", Query: &spec.Query{Name: "page"}})
+				m.Path = "/" + strings.ToLower(mn) + "/{tenant}"
+			}
 			if i == 0 {
 				m.Headers = []*spec.Header{{Name: "x-api-key", Type: "string", Format: "uuid", Required: seed%3 != 0}}
 			}
@@ -256,6 +264,18 @@ func missingFor(src string, canon, single *world.PluginResult) string {
 	return ""
 }
 
+// extraFor reports a file the single-file run of src emitted that the all-together run does
+// not emit at all: the set of outputs of a source must not shrink because sibling files are
+// generated in the same invocation.
+func extraFor(canon, single *world.PluginResult) string {
+	for _, name := range single.Order {
+		if _, ok := canon.Files[name]; !ok {
+			return name
+		}
+	}
+	return ""
+}
+
 func firstDiffLines(a, b string) string {
 	al, bl := strings.Split(a, "\n"), strings.Split(b, "\n")
 	for i := 0; i < len(al) && i < len(bl); i++ {
@@ -351,6 +371,8 @@ func (e *c15Env) checkWorld(w *spec.World, mapSeeds int, seed int64) []*c15Findi
 					report(v, f, "output for "+paths[i]+" changes when the other files are generated in the same invocation: "+d)
 				} else if m := missingFor(paths[i], canon, single); m != "" && single.Error == "" && canon.Error == "" {
 					report(v, m, "generating "+paths[i]+" alone does not emit "+m+", which the same invocation emits when the other files are generated too")
+				} else if x := extraFor(canon, single); x != "" && single.Error == "" && canon.Error == "" {
+					report(v, x, "generating "+paths[i]+" alone emits "+x+", which is missing when the other files are generated in the same invocation")
 				}
 				tup(v.Kind)
 			}
@@ -387,6 +409,8 @@ func (e *c15Env) checkWorld(w *spec.World, mapSeeds int, seed int64) []*c15Findi
 					report(v, f, "output for "+paths[i]+" changes when the other file is generated in the same invocation: "+d)
 				} else if m := missingFor(paths[i], canon, single); m != "" && single.Error == "" && canon.Error == "" {
 					report(v, m, "generating "+paths[i]+" alone does not emit "+m+", which the same invocation emits when the other file is generated too")
+				} else if x := extraFor(canon, single); x != "" && single.Error == "" && canon.Error == "" {
+					report(v, x, "generating "+paths[i]+" alone emits "+x+", which is missing when the other file is generated in the same invocation")
 				}
 				tup(v.Kind)
 				// the other file absent from the request altogether
